@@ -309,6 +309,14 @@ def durable_execution(
             invocation_input.initial_execution_state.next_marker,
         )
 
+        # The first page may hold only the EXECUTION operation (or nothing at all) while the
+        # rest of the history arrives on later pages: decide on the complete history.
+        if any(
+            op.operation_type is not OperationType.EXECUTION
+            for op in execution_state.operations.values()
+        ):
+            execution_state.mark_replaying()
+
         durable_context: DurableContext = DurableContext.from_lambda_context(
             state=execution_state, lambda_context=context
         )
